@@ -29,7 +29,7 @@ def gen_rescale(r, tier):
 class C01(Prop):
     id = "C01"
     lean_modules = ["Fan2go.Props.C01"]
-    fact_modules = ["Fan2go.Props.Facts", "Fan2go.Props.Trans", "Fan2go.Props.Trans2FindClosest", "Fan2go.Props.Trans3A", "Fan2go.Props.Trans3B"]
+    fact_modules = ["Fan2go.Props.Facts", "Fan2go.Props.Trans", "Fan2go.Props.Trans2FindClosest", "Fan2go.Props.Trans3A", "Fan2go.Props.Trans3B", "Fan2go.Props.Trans3Fan"]
     rule = ("ctrl: random controller worlds (hwmon/file fans and ~10 % cmd fans driven through real scripts and processes, limits biased to {0,1,2,30,100,254,255}, neverStop on/off, "
             "PWM-map shapes identity/sparse/quantiser/plateau/non-monotone/constant/single, loops direct / direct+limit / "
             "PID default / PID random gains) x event lists (cycles with curve values in -300..600, elapsed time incl. 0, RPM "
